@@ -17,6 +17,7 @@ from common import AnalysisBroken
 from irlib import V
 from c13_fv import FV, IV, PV, CV, INF, DBL_MAX, vjoin
 import c13_fi
+import c13_fv
 from c13_fi import FI
 
 FLOAT_CONVS = 'fFeEgG'
@@ -283,7 +284,7 @@ def render(f, v, depth=0):
     if v.k == 'arg':
         return f.params[v.argno]['name'] or 'arg%d' % v.argno
     i = f.inst_of(v)
-    if i is None or depth > 6:
+    if i is None or depth > 9:
         return '?'
     if i.op in ('sext', 'zext', 'trunc', 'bitcast', 'fpext', 'fptrunc', 'sitofp', 'uitofp', 'fptosi', 'freeze'):
         return render(f, i.ops[0], depth + 1)
@@ -293,6 +294,8 @@ def render(f, v, depth=0):
         return '&' + (i.name or 'local')
     if i.op in ('fcmp', 'icmp'):
         return '%s %s %s' % (render(f, i.ops[0], depth + 1), FCMP_TXT.get(i.pred, i.pred), render(f, i.ops[1], depth + 1))
+    if i.op == 'phi' and depth < 3 and not any(L['header'] is i.block for L in f.loops):
+        return '{%s}' % ' | '.join(sorted(set(render(f, o, depth + 2) for o in i.ops)))
     if i.op == 'call' and i.callee:
         return '%s(%s)' % (i.callee.replace('llvm.', '').split('.')[0], ', '.join(render(f, o, depth + 1) for o in i.ops))
     if i.op in ('and', 'or') and i.bits == 1:
@@ -430,6 +433,36 @@ def fi_rules(rep, mod, T, fams):
     return runs, facts
 
 
+def prefix_rule(rep, mod):
+    """R-PREFIX: the sign text is chosen before the routine looks at its exponent-form / shortest-form parameters, so the
+    choice is the same code for %f, %e and %g (the %g context is executed with the '+' and ' ' flags clear)"""
+    f = mod.fn(FN)
+    pref = None
+    for c in f.calls('strlen'):
+        leaves = value_slice(f, c.ops[0], ops=('phi', 'select', 'bitcast'))
+        consts = []
+        okk = c.ops[0].k == 'inst'
+        for x in leaves:
+            for o in (x.ops[1:] if x.op == 'select' else x.ops):
+                if o.k in ('cexpr', 'global'):
+                    consts.append(o)
+                elif o.k != 'inst' or f.insts[o.id].op not in ('phi', 'select', 'bitcast'):
+                    okk = False
+        if okk and len(consts) >= 3 and (pref is None or f.dominates(c, pref)):
+            pref = c
+    if pref is None:
+        raise AnalysisBroken('%s: the selection of the sign text was not found (anchor changed)' % FN)
+    sel = f.insts[pref.ops[0].id]
+    late = []
+    for i in f.all_insts():
+        if any(o.k == 'arg' and o.argno in (ROLE_EXP, ROLE_SHORT) for o in i.ops) and not f.dominates_block(sel.block, i.block):
+            late.append(i)
+    ok = not late
+    rep.inst('R-PREFIX', FN, 'the sign text is chosen before the conversion family is consulted', ok, sel.where(),
+             None if ok else 'the exponent-form / shortest-form parameter is used at %s, not after the selection of the sign text'
+             % late[0].where())
+
+
 def upper_rule(rep, mod, T):
     """R-UPPER: inside the floating routine the upper-case bit of the directive word never decides control flow, it only
     selects between values (letters, words): the layout decided for the lower-case conversions is the layout of F E G"""
@@ -467,6 +500,387 @@ def upper_rule(rep, mod, T):
 
 
 # ----------------------------------------------------------------------------------------------
+# rounding step (structure of the digit generation)
+# ----------------------------------------------------------------------------------------------
+FCASTS = ('fpext', 'fptrunc', 'freeze', 'bitcast')
+
+
+def fstrip(f, v):
+    while v.k == 'inst' and f.insts[v.id].op in FCASTS:
+        v = f.insts[v.id].ops[0]
+    return v
+
+
+def cell_of_load(f, v):
+    """the local scalar cell (alloca inst) a float value is loaded from, through conversions"""
+    v = fstrip(f, v)
+    i = f.inst_of(v)
+    if i is not None and i.op == 'load':
+        a = f.inst_of(i.ops[0])
+        if a is not None and a.op == 'alloca' and a.d.get('alloc_ty', {}).get('k') == 'fp':
+            return a
+    return None
+
+
+def from_arg(f, v, argno):
+    v = fstrip(f, v)
+    i = f.inst_of(v)
+    while i is not None and i.op in ('sitofp', 'uitofp', 'sext', 'zext', 'trunc') + FCASTS:
+        v = i.ops[0]
+        i = f.inst_of(v)
+    return v.k == 'arg' and v.argno == argno
+
+
+def value_slice(f, v, ops=('trunc', 'zext', 'sext', 'add', 'sub', 'select', 'phi'), limit=40):
+    """instructions v is computed from through the given operations"""
+    out, work, seen = [], [v], set()
+    while work and len(seen) < limit:
+        x = work.pop()
+        if x.k != 'inst' or x.id in seen:
+            continue
+        seen.add(x.id)
+        i = f.insts[x.id]
+        out.append(i)
+        if i.op in ops:
+            work.extend(i.ops[1:] if i.op == 'select' else i.ops)
+    return out
+
+
+def buffer_root(f, v, depth=0, seen=None):
+    """the alloca a pointer is derived from through gep / bitcast / phi"""
+    seen = seen if seen is not None else set()
+    if v.k != 'inst' or v.id in seen or depth > 30:
+        return None
+    seen.add(v.id)
+    i = f.insts[v.id]
+    if i.op == 'alloca':
+        return i
+    if i.op in ('getelementptr', 'bitcast'):
+        return buffer_root(f, i.ops[0], depth + 1, seen)
+    if i.op in ('phi', 'select'):
+        for o in (i.ops[1:] if i.op == 'select' else i.ops):
+            r = buffer_root(f, o, depth + 1, seen)
+            if r is not None:
+                return r
+    return None
+
+
+def digit_loops(f):
+    """[(loop, cell, store)]: loops that store a character computed from  (int)fmod(<cell>, ..)  into a local byte array"""
+    out = []
+    for L in f.loops:
+        for b in L['blocks']:
+            for i in b.insts:
+                if i.op != 'store' or i.d.get('store_size') != 1:
+                    continue
+                root = buffer_root(f, i.ops[1])
+                if root is None or root.d.get('alloc_ty', {}).get('k') != 'array':
+                    continue
+                for x in value_slice(f, i.ops[0]):
+                    if x.op in ('fptosi', 'fptoui'):
+                        c = f.inst_of(fstrip(f, x.ops[0]))
+                        if c is not None and c.op == 'call' and (c.callee or '').startswith('fmod'):
+                            a = c.ops[0]
+                            ai = f.inst_of(fstrip(f, a))
+                            if ai is not None and ai.op == 'call' and (ai.callee or '').replace('llvm.', '').startswith('fabs'):
+                                a = ai.ops[0]
+                            cell = cell_of_load(f, a)
+                            if cell is not None:
+                                out.append((L, cell, i, c))
+    return out
+
+
+def stores_to(f, cell):
+    return [i for i in f.all_insts() if i.op == 'store' and i.ops[1].k == 'inst' and i.ops[1].id == cell.id]
+
+
+def round_rule(rep, mod):
+    """R-ROUND: the fraction is scaled by base^n, rounded to the nearest integer, a carry out of the fraction is moved
+    into the integer part, and exactly the n scaled digits are extracted"""
+    f = mod.fn(FN)
+    w = where_fn(f)
+    dl = digit_loops(f)
+    counted = [d for d in dl if counted_exit(f, d[0])]
+    if len(counted) != 1:
+        raise AnalysisBroken('%s: expected one counted fraction-digit loop, found %d (anchor changed)' % (FN, len(counted)))
+    FD, X, fd_store, _ = counted[0]
+    later = [d for d in dl if d[0] is not FD and f.dominates_block(FD['header'], d[0]['header'])]
+    if len(later) != 1:
+        raise AnalysisBroken('%s: expected one integer-digit loop after the fraction digits, found %d' % (FN, len(later)))
+    ID, IP, _, _ = later[0]
+    # the bound of the fraction digit loop
+    bound = None
+    for (src, dst) in FD['exits']:
+        t = src.term
+        if t.op == 'br' and 'f' in t.d and t.ops[0].k == 'inst':
+            c = f.insts[t.ops[0].id]
+            if c.op == 'icmp' and c.pred in ('slt', 'ult'):
+                bound = c.ops[1]
+    # scaling loop: X = X * base
+    SC = cnt = None
+    for L in f.loops:
+        for b in L['blocks']:
+            for i in b.insts:
+                if i.op == 'store' and i.ops[1].k == 'inst' and i.ops[1].id == X.id:
+                    m = f.inst_of(fstrip(f, i.ops[0]))
+                    if m is not None and m.op == 'fmul':
+                        cells = [cell_of_load(f, o) for o in m.ops]
+                        others = [o for o, c_ in zip(m.ops, cells) if c_ is None or c_.id != X.id]
+                        if any(c_ is not None and c_.id == X.id for c_ in cells) and len(others) == 1 and \
+                                from_arg(f, others[0], ROLE_BASE):
+                            SC = L
+    if SC is not None:
+        for ph in [i for i in SC['header'].insts if i.op == 'phi' and i.ty.get('k') == 'int']:
+            for (bb, v) in ph.incoming:
+                a = f.inst_of(v)
+                if f.bmap[bb] in SC['blocks'] and a is not None and a.op == 'add' and a.ops[0].key() == ('i', ph.id) and \
+                        a.ops[1].k == 'ci' and a.ops[1].ival == 1:
+                    cnt = ph
+    # %g may take back scaled digits that turned out to be zeros: bound = phi(cnt, bound - 1) of a loop that divides the
+    # fraction by the base once per digit taken back
+    ZS = None
+    headers = {L['header']: L for L in f.loops}
+
+    def leaves(v, seen):
+        """values merged into v by phis outside loop headers / selects"""
+        i = f.inst_of(v)
+        if i is None or i.id in seen:
+            return []
+        seen.add(i.id)
+        if (i.op == 'phi' and i.block not in headers) or i.op == 'select':
+            out = []
+            for o in (i.ops[1:] if i.op == 'select' else i.ops):
+                out.extend(leaves(o, seen))
+            return out
+        return [i]
+    direct = False
+    if cnt is not None and bound is not None:
+        lv = leaves(bound, set())
+        direct = bool(lv) and all(x.id == cnt.id for x in lv)
+        if not direct and lv and all(x.id == cnt.id or (x.op == 'phi' and x.block in headers) for x in lv):
+            good = True
+            for bi in [x for x in lv if x.id != cnt.id]:
+                L = headers[bi.block]
+                inits = [v for (bb, v) in bi.incoming if f.bmap[bb] not in L['blocks']]
+                steps = [f.inst_of(v) for (bb, v) in bi.incoming if f.bmap[bb] in L['blocks']]
+                init_ok = all(all(x.id == cnt.id for x in leaves(v, set())) and leaves(v, set()) for v in inits)
+                step_ok = all(a is not None and a.op == 'add' and a.ops[0].key() == ('i', bi.id) and a.ops[1].k == 'ci' and
+                              a.ops[1].ival == -1 for a in steps)
+                divs = []
+                for b in L['blocks']:
+                    for i in b.insts:
+                        if i.op == 'store' and i.ops[1].k == 'inst' and i.ops[1].id == X.id:
+                            d = f.inst_of(fstrip(f, i.ops[0]))
+                            if d is not None and d.op == 'fdiv' and from_arg(f, d.ops[1], ROLE_BASE):
+                                divs.append(i)
+                if inits and steps and init_ok and step_ok and len(divs) == 1:
+                    ZS = L
+                else:
+                    good = False
+            if not good:
+                ZS = None
+    ok = SC is not None and cnt is not None and (direct or ZS is not None)
+    rep.inst('R-ROUND', FN, 'the fraction is multiplied by the digit base once per extracted fraction digit', ok,
+             fd_store.where(), None if ok else ('no loop multiplies the fraction by the base parameter' if SC is None else
+                                                'the fraction digit loop runs %s times, the scaling loop counts %s'
+                                                % (render(f, bound) if bound is not None else '?', cnt.name if cnt else '?')))
+    # rounding call
+    rounds = []
+    for c in f.calls(pred=lambda n: n in c13_fi.ROUND_CALLS):
+        cell = cell_of_load(f, c.ops[0])
+        if cell is not None and cell.id == X.id and any(fstrip(f, s_.ops[0]).key() == ('i', c.id) for s_ in stores_to(f, X)):
+            rounds.append(c)
+    good = [c for c in rounds if c13_fi.ROUND_CALLS[c.callee] in ('round', 'rint', 'nearbyint') and
+            f.dominates_block(c.block, FD['header']) and (SC is None or (c.block not in SC['blocks'] and
+                                                                        f.dominates_block(SC['header'], c.block)))]
+    ok = len(good) == 1 and len(rounds) == 1
+    R = good[0] if good else None
+    rep.inst('R-ROUND', FN, 'the scaled fraction is rounded to the nearest integer before its digits are extracted', ok,
+             rounds[0].where() if rounds else w,
+             None if ok else ('the scaled fraction is not rounded at all: the last digit is truncated' if not rounds else
+                              'the scaled fraction passes through %s, which is not a round-to-nearest placed between the '
+                              'scaling and the digit extraction' % [c.callee for c in rounds]),
+             fact={'calls': [c.callee for c in rounds]})
+    # carry
+    carries = []
+    for c in f.all_insts():
+        if c.op != 'fcmp' or c.pred not in ('oeq', 'ueq', 'one', 'une'):
+            continue
+        cells = [cell_of_load(f, o) for o in c.ops]
+        pows = [f.inst_of(fstrip(f, o)) for o in c.ops]
+        pw = [p_ for p_ in pows if p_ is not None and p_.op == 'call' and (p_.callee or '').startswith('pow')]
+        if not any(c_ is not None and c_.id == X.id for c_ in cells) or len(pw) != 1:
+            continue
+        p_ = pw[0]
+        e = fstrip(f, p_.ops[1])
+        ei = f.inst_of(e)
+        eok = ei is not None and ei.op in ('sitofp', 'uitofp') and cnt is not None and ei.ops[0].key() == ('i', cnt.id)
+        if from_arg(f, p_.ops[0], ROLE_BASE) and R is not None and f.dominates(R, c):
+            carries.append((c, eok))
+    incs = []
+    for a in f.all_insts():
+        if a.op == 'fadd':
+            cells = [cell_of_load(f, o) for o in a.ops]
+            ones = [o for o in a.ops if o.k == 'cf' and c13_fi.f_from_bits(o.d.get('bitsd', 0)) == 1.0]
+            if any(c_ is not None and c_.id == IP.id for c_ in cells) and ones and R is not None and f.dominates(R, a):
+                incs.append(a)
+    ok = bool(carries) and all(e for (_, e) in carries) and bool(incs)
+    rep.inst('R-ROUND', FN, 'a fraction rounded up to base^digits carries into the integer part', ok,
+             carries[0][0].where() if carries else w,
+             None if ok else ('the rounded fraction is never compared with base^digits' if not carries else
+                              ('the comparison uses another exponent than the number of scaled digits' if not all(e for (_, e) in carries)
+                               else 'the integer part is never incremented after the rounding')))
+    zeroed = []
+    for s_ in stores_to(f, X):
+        if R is None or not f.dominates(R, s_) or not f.dominates_block(s_.block, FD['header']):
+            continue
+        leaves = value_slice(f, fstrip(f, s_.ops[0]), ops=('select', 'phi') + FCASTS)
+        consts = []
+        for x in leaves:
+            for o in (x.ops[1:] if x.op == 'select' else x.ops):
+                if o.k == 'cf' and c13_fi.f_from_bits(o.d.get('bitsd', 1)) == 0.0:
+                    consts.append(o)
+        if consts:
+            zeroed.append(s_)
+    ok = bool(zeroed)
+    rep.inst('R-ROUND', FN, 'the carry clears the fraction', ok, zeroed[0].where() if zeroed else w,
+             None if ok else 'after the rounding the fraction is never replaced by zero: a carry would print base^digits as '
+             'fraction digits')
+    whole = []
+    for c in f.calls(pred=lambda n: n in c13_fi.ROUND_CALLS):
+        a = f.inst_of(fstrip(f, c.ops[0]))
+        if a is not None and a.op == 'fadd':
+            cells = [cell_of_load(f, o) for o in a.ops]
+            ids = set(c_.id for c_ in cells if c_ is not None)
+            if ids == {X.id, IP.id}:
+                whole.append(c)
+    ok = len(whole) == 1 and c13_fi.ROUND_CALLS[whole[0].callee] in ('round', 'rint', 'nearbyint')
+    rep.inst('R-ROUND', FN, 'with no fraction digits the value is rounded to the nearest integer', ok,
+             whole[0].where() if whole else w,
+             None if ok else 'integer part + fraction is not passed through a round-to-nearest (%s)' % [c.callee for c in whole])
+    return {'FD': FD, 'ID': ID, 'X': X, 'IP': IP, 'SC': SC, 'cnt': cnt, 'R': R, 'bound': bound, 'ZS': ZS}
+
+
+def cond_slice(f, v, limit=60):
+    """instructions an i1 / integer condition is computed from (boolean connectives, compares, masks, casts)"""
+    return value_slice(f, v, ops=('and', 'or', 'xor', 'icmp', 'select', 'zext', 'sext', 'trunc', 'phi'), limit=limit)
+
+
+def depends_on_flag(f, v, mask):
+    return any(x.op == 'and' and any(o.k == 'ci' and o.ival == mask for o in x.ops) and
+               any(o.k == 'arg' and o.argno == ROLE_OPS for o in x.ops) for x in cond_slice(f, v))
+
+
+def depends_on_arg(f, v, argno):
+    return any(any(o.k == 'arg' and o.argno == argno for o in x.ops) for x in cond_slice(f, v))
+
+
+def guards_of(f, b, limit=12):
+    """conditions of the conditional branches that decide whether block b is reached (immediate dominator chain)"""
+    out = []
+    idom = f.idom
+    cur = b
+    while cur is not None and cur != '<root>' and len(out) < limit:
+        p_ = idom.get(cur)
+        if p_ is None or p_ == '<root>' or p_ is cur:
+            break
+        t = p_.term
+        if t.op == 'br' and 'f' in t.d and not f.postdominates_block(cur, p_):
+            out.append(t.ops[0])
+        cur = p_
+    return out
+
+
+def gshape_rule(rep, mod, T, anchors):
+    """R-GSHAPE (%g): trailing zeros of the fraction are removed after the rounding, unless '#' is given, in which case
+    the fraction is filled up with zeros like for %f"""
+    f = mod.fn(FN)
+    w = where_fn(f)
+    H = T['flags']['#']
+    ZS, R, X = anchors['ZS'], anchors['R'], anchors['X']
+    ok = False
+    detail = 'the number of fraction digits is fixed before the fraction is rounded and never reduced afterwards: zeros ' \
+             'produced by the rounding stay in the text (e.g. "%g" of 9.9999995 gives "10.00000", of 1e300 "1.00000e+300")'
+    if ZS is not None and R is not None:
+        after = f.dominates_block(R.block, ZS['header']) and R.block not in ZS['blocks']
+        tests = []
+        for (src, dst) in ZS['exits']:
+            t = src.term
+            if t.op == 'br' and 'f' in t.d:
+                for x in cond_slice(f, t.ops[0]):
+                    pass
+                for x in value_slice(f, t.ops[0], ops=('and', 'or', 'xor', 'select', 'fcmp', 'icmp') + FCASTS, limit=40):
+                    if x.op == 'call' and (x.callee or '').startswith('fmod'):
+                        c_ = cell_of_load(f, x.ops[0])
+                        if c_ is not None and c_.id == X.id and from_arg(f, x.ops[1], ROLE_BASE):
+                            tests.append(x)
+        ok = after and bool(tests)
+        if not ok:
+            detail = 'the loop that takes digits back %s' % ('does not test the last digit of the rounded fraction' if after
+                                                            else 'runs before the rounding')
+    rep.inst('R-GSHAPE', FN, 'shortest form: zero digits at the end of the rounded fraction are taken back', ok,
+             (ZS['header'].term.where() if ZS is not None else w), None if ok else detail)
+    if ZS is not None:
+        gs = guards_of(f, ZS['header'])
+        ok = any(depends_on_arg(f, g, ROLE_SHORT) for g in gs) and any(depends_on_flag(f, g, H) for g in gs)
+        rep.inst('R-GSHAPE', FN, "digits are taken back only in the shortest form without '#'", ok, ZS['header'].term.where(),
+                 None if ok else 'the loop is not guarded by both the shortest-form parameter and the # flag: it would also '
+                 'shorten %f / %e or %#g')
+    # the zero fill after the buffered digits
+    fills = zero_fill_counts(f)
+    if len(fills) != 1:
+        raise AnalysisBroken('%s: expected one zero-fill emission loop after the buffered text, found %d' % (FN, len(fills)))
+    cnt0 = fills[0]
+    sels = [x for x in value_slice(f, cnt0, ops=('select', 'phi', 'trunc', 'sext', 'zext')) if x.op == 'select']
+    dep_short = [x for x in sels if depends_on_arg(f, x.ops[0], ROLE_SHORT)]
+    if not dep_short:
+        raise AnalysisBroken('%s: the zero fill does not depend on the shortest-form parameter (anchor changed)' % FN)
+    ok = any(depends_on_flag(f, x.ops[0], H) for x in dep_short)
+    rep.inst('R-GSHAPE', FN, "the zero fill is suppressed only in the shortest form without '#'", ok, dep_short[0].where(),
+             None if ok else 'the zero fill is switched off by the shortest-form parameter alone: "%#g" loses its trailing zeros '
+             '(e.g. "%#g" of 1.5 gives "1.5" instead of "1.50000")')
+
+
+def zero_fill_counts(f):
+    """initial counts of the count-down loops that emit the constant '0' and come after a loop emitting bytes of a local
+    array (the buffered digits)"""
+    def handler_call(i):
+        c = i.d.get('callee')
+        return i.op == 'call' and c is not None and c.get('k') == 'arg' and c.get('i') == 0
+    readers, zeros = [], []
+    for L in f.loops:
+        calls = [i for b in L['blocks'] for i in b.insts if handler_call(i)]
+        if len(calls) != 1 or len(calls[0].ops) < 2:
+            continue
+        a = calls[0].ops[1]
+        if a.k == 'ci' and a.ival == 48:
+            zeros.append(L)
+        else:
+            li = f.inst_of(fstrip(f, a))
+            while li is not None and li.op in ('sext', 'zext', 'trunc'):
+                li = f.inst_of(li.ops[0])
+            if li is not None and li.op == 'load':
+                root = buffer_root(f, li.ops[0])
+                if root is not None and root.d.get('alloc_ty', {}).get('k') == 'array':
+                    readers.append(L)
+    out = []
+    for L in zeros:
+        if any(f.dominates_block(Rd['header'], L['header']) for Rd in readers):
+            for ph in [i for i in L['header'].insts if i.op == 'phi' and i.ty.get('k') == 'int']:
+                for (bb, v) in ph.incoming:
+                    if f.bmap[bb] not in L['blocks']:
+                        out.append(v)
+    # only the first zero loop after the first reader
+    if len(out) > 1 and len(readers) >= 2:
+        first = [Rd for Rd in readers if all(Rd is r2 or f.dominates_block(Rd['header'], r2['header']) for r2 in readers)]
+        if first:
+            second = [Rd for Rd in readers if Rd is not first[0]]
+            out = [v for v, L in zip(out, [L for L in zeros if any(f.dominates_block(Rd['header'], L['header']) for Rd in readers)])
+                   if not any(f.dominates_block(Rd['header'], L['header']) for Rd in second)] or out
+    return out
+
+
+# ----------------------------------------------------------------------------------------------
 # emission part
 # ----------------------------------------------------------------------------------------------
 def sx_rules(rep, mod, T, fams, facts):
@@ -477,7 +891,8 @@ def sx_rules(rep, mod, T, fams, facts):
     for fam, triple in fams.items():
         pct = '%' + fam
         t0 = time.time()
-        sx, rets, wp = c13_sx.run_family(mod, T, FN, triple, facts[fam]['ranges'], facts[fam]['cstr_end'])
+        clear = (T['flags']['+'], T['flags'][' ']) if fam == 'g' else ()       # see R-PREFIX
+        sx, rets, wp = c13_sx.run_family(mod, T, FN, triple, facts[fam]['ranges'], facts[fam]['cstr_end'], clear)
         bad = [(s, rv) for s, rv in rets if not (isinstance(rv, c13_sx.Lin) and s.cons.entails_eq(rv, s.E))]
         ok = bool(rets) and not bad
         rep.inst('R-PCACC', FN, '%s: returned count == number of output callbacks on every path' % pct, ok, w,
@@ -504,6 +919,39 @@ def sx_rules(rep, mod, T, fams, facts):
 
 # ----------------------------------------------------------------------------------------------
 def run(rep, repo, tier):
+    rep.explanation = (
+        'Floating conversions of igris/util/printf_impl.c. (1) Interval abstract interpretation of print_f (c13_fi: floats as '
+        'intervals with +-inf/NaN flags and integrality, IEEE round-to-nearest evaluated on the end points, x86_fp80 results '
+        'enclosed exactly; loops are executed on the abstract state until no state is left inside): for every finite double, '
+        'every long double, both infinities and NaN, in each of the contexts %f / %e / %g, every float-controlled loop '
+        'terminates (R-FTERM: trip-count bound, e.g. 309 rounds for the integer digits of any finite double), every access to '
+        'the local buffers is inside them (R-FBUF), every float -> int conversion has a finite in-range operand (R-FPCAST), only '
+        'digits, point, sign, exponent marker and NUL are stored into the text buffer (R-FCHARS), a long double outside the '
+        'double range is handled (R-LDBL), infinities and NaN enter no digit loop and are handed to the string routine as the '
+        'words inf / nan, in capitals for F E G, with the sign (R-NANINF). (2) Symbolic execution of the emission part (c13_sx on '
+        'the executor of C06, integers as linear forms): on every path the returned count equals the number of output callbacks '
+        '(R-PCACC), no emission count can be negative (R-EMITCOUNT), the emission loops read inside the buffers given the '
+        'cursor ranges proved in (1) (R-EMITREAD), and the output is [spaces] sign [zeros] text [zeros] [exponent] [spaces] with '
+        'padding = max(width - rest, 0) placed by - and 0 as for integers, sign -, +, space or none, and for %f / %e exactly '
+        '`precision` digits after the point (6 without a precision; buffered digits + zero fill), the point present iff '
+        'precision > 0 or # (R-FLAYOUT). (3) IR rules: f F e E g G all reach print_f with base 10 and the right exponent / '
+        'shortest-form flags, upper-case bit, parsed width and precision, argument fetched as double or (L) long double and '
+        'passed unchanged (R-CONVSET, R-FVAARG); the upper-case bit only selects values and the sign text is chosen before the '
+        'family is consulted (R-UPPER, R-PREFIX: premises of the contexts used in (2)); the rounding step: fraction scaled by '
+        'base^n, rounded to nearest, carry into the integer part, fraction cleared, n digits extracted, precision 0 rounds the '
+        'whole value (R-ROUND); %g takes back zero digits after the rounding and honours # (R-GSHAPE); every loop condition can '
+        'change inside its loop (R-LOOPVAR). NOT decided: the numerical value of the printed digits (that the text parsed back '
+        'lies within half a unit of the last digit: a property of run-time values and of the accumulated rounding error of '
+        'repeated division / multiplication by ten), the choice between fixed and exponent notation of %g and its significant-'
+        'digit count, correctness of the exponent value, int overflow of width / precision near INT_MAX, the %a conversion.')
+    rep.assumptions += [
+        'IEEE-754 binary64 double, x86_fp80 long double, round-to-nearest; modf, fmod, fabs, round, ceil, floor are exact as ISO C '
+        'requires; log10 and pow of the C library are accurate to %d ulps' % c13_fv.LIBM_SLACK,
+        'int is 32 bits; integer arithmetic on width / precision / counts does not overflow (symbolic execution uses '
+        'mathematical integers)',
+        'the output callback does not modify the local buffers of print_f',
+        'the %g context of the symbolic execution runs with the + and space flags clear and all contexts with the upper-case bit '
+        'clear (justified by R-PREFIX and R-UPPER)']
     mod = unit(repo)
     rep.units.append(SRC)
     T = parser_tables(mod)
@@ -515,6 +963,14 @@ def run(rep, repo, tier):
             fams[c] = fam_by_conv[c]
     if not fams:
         raise AnalysisBroken('no floating conversion reaches %s with constant mode arguments' % FN)
-    runs, facts = fi_rules(rep, mod, T, fams)
+    loopvar_rule(rep, 'R-LOOPVAR', mod, [FN])
     upper_rule(rep, mod, T)
+    prefix_rule(rep, mod)
+    anchors = round_rule(rep, mod)
+    gshape_rule(rep, mod, T, anchors)
+    runs, facts = fi_rules(rep, mod, T, fams)
     sx_rules(rep, mod, T, fams, facts)
+    for rule, n in (('R-CONVSET', 36), ('R-FVAARG', 3), ('R-LOOPVAR', 10), ('R-UPPER', 4), ('R-PREFIX', 1), ('R-ROUND', 5),
+                    ('R-GSHAPE', 2), ('R-FTERM', 12), ('R-FBUF', 6), ('R-FPCAST', 6), ('R-FCHARS', 3), ('R-LDBL', 3),
+                    ('R-NANINF', 18), ('R-PCACC', 3), ('R-EMITCOUNT', 15), ('R-FLAYOUT', 18)):
+        rep.floor(rule, n)
